@@ -111,6 +111,10 @@ class Builder:
             rr = subprocess.run([exe], stdout=subprocess.PIPE, stderr=subprocess.PIPE, text=True, timeout=120)
         except subprocess.TimeoutExpired:
             return {"status": "run_error", "detail": "probe timed out", "cmd": replay, "secs": secs}
+        if rr.returncode != 0 and "panicked at" in rr.stderr:
+            # the probe's fixed workload panicked in this configuration (judged below against the base configuration)
+            msg = re.search(r"panicked at ([^\n]*)\n([^\n]*)", rr.stderr)
+            return {"status": "probe_panic", "detail": (msg.group(1) + ": " + msg.group(2)) if msg else rr.stderr[-300:], "cmd": replay, "secs": secs}
         if rr.returncode != 0:
             return {"status": "run_error", "detail": f"probe exited with {rr.returncode}: {rr.stderr[-800:]}", "cmd": replay, "secs": secs}
         m = re.search(r"base_digest=([0-9a-f]+) base_values=(\d+)", rr.stdout)
@@ -218,6 +222,24 @@ def run(prop, tier, seed, rundir, verif, log):
             probs.append(f"config sweep {name_of(c)}: {r['status']}: {r['detail'][:300]}")
     # ---- behaviour: digest identical within a base; feature lines identical wherever printed
     ok = {c: r for c, r in results.items() if r["status"] == "ok"}
+    # a workload that runs to completion in the base configuration but panics once features are
+    # enabled: the features changed the behaviour of always-present items
+    panicking = {c: r for c, r in results.items() if r["status"] == "probe_panic"}
+    for (bb, fs), r in panicking.items():
+        if (bb, ()) not in ok:
+            probs.append(f"config sweep {name_of((bb, fs))}: the probe panicked and the base configuration gives no reference: {r['detail'][:300]}")
+            continue
+        culprit = fs
+        for sub in sorted((k for k in panicking if k[0] == bb and set(k[1]) <= set(fs)), key=lambda k: len(k[1])):
+            culprit = sub[1]
+            break
+        what = "features=" + "+".join(culprit)
+        viols.append({
+            "sub": "config_sweep", "api": "cfgprobe base workload", "ty": bb, "class": "behaviour_changed",
+            "sig": f"{prop}|cfgprobe base workload|{bb}|behaviour_changed|panic:{what}",
+            "detail": f"the fixed workload over the always-present API runs to completion with {bb}:(none) but panics with {name_of((bb, fs))} ({r['detail'][:300]}): enabling {what} changes the behaviour of other items",
+            "profile": "stable-build", "case_seed": seed, "case_index": None, "replay_cmd": r["cmd"] + " && /tmp/c20_replay/debug/cfgprobe",
+        })
     for base in BASES:
         ref = ok.get((base, ()))
         if ref is None:
